@@ -376,6 +376,10 @@ CORPUS = [
     # one channel with 9 resp. 10 bits, all signatures distinct and non-null (a long correlated chain): outcome indices above 255
     ("nine-bit-channel", {"tables": [[1] * 512, [3, 1]], "exps": [9, 2], "T": T_from_cols([1, 2, 3, 4, 5, 6, 7, 8, 9, 9], 4)}),
     ("ten-bit-channel", {"tables": [[2] + [1] * 1022 + [0]], "exps": [10], "T": T_from_cols([10, 9, 8, 7, 6, 5, 4, 3, 2, 1], 4)}),
+    # more than 64 reduced parameters (rows): columns that agree on the first 64 rows and differ only beyond, a column whose only set
+    # rows lie beyond row 64 (not a null column), next to a genuine null column
+    ("seventy-rows", {"tables": [[5, 3], [3, 1], [2, 1, 1, 0], [1, 1]], "exps": [3, 2, 2, 1], "T": T_from_cols([1 << 40, (1 << 40) | 1, 1 << 2, 0, (1 << 40) | 4], 70)}),
+    ("ninety-six-rows", {"tables": [[3, 1], [1, 1], [6, 2]], "exps": [2, 1, 3], "T": T_from_cols([(1 << 95) | (1 << 20), (1 << 95) | (1 << 20) | (1 << 31), 1 << 31], 96)}),
     # very rare errors (3e-6 and below) next to a null column: marginalising the null bits must keep them, however small
     ("rare-next-to-null", {"tables": [[(1 << 20) - 3, 3], [3, 1]], "exps": [20, 2], "T": T_from_cols([1, 0], 1)}),
     ("rare-pauli1-null-bit", {"tables": [[(1 << 20) - 4, 2, 1, 1], [5, 3]], "exps": [20, 3], "T": T_from_cols([2, 0, 1], 2)}),
